@@ -12,7 +12,7 @@ use crate::gadgets::polynomial::PolynomialCoeffsExtTarget;
 use crate::hash::hash_types::{MerkleCapTarget, RichField};
 use crate::hash::merkle_proofs::{MerkleProof, MerkleProofTarget};
 use crate::hash::merkle_tree::MerkleCap;
-use crate::hash::path_compression::{compress_merkle_proofs, decompress_merkle_proofs};
+use crate::hash::path_compression::{compress_merkle_proofs, try_decompress_merkle_proofs};
 use crate::iop::ext_target::ExtensionTarget;
 use crate::iop::target::Target;
 use crate::plonk::config::Hasher;
@@ -242,7 +242,7 @@ impl<F: RichField + Extendable<D>, H: Hasher<F>, const D: usize> CompressedFriPr
         challenges: &ProofChallenges<F, D>,
         fri_inferred_elements: FriInferredElements<F, D>,
         params: &FriParams,
-    ) -> FriProof<F, H, D> {
+    ) -> anyhow::Result<FriProof<F, H, D>> {
         let CompressedFriProof {
             commit_phase_merkle_caps,
             query_round_proofs,
@@ -321,11 +321,11 @@ impl<F: RichField + Extendable<D>, H: Hasher<F>, const D: usize> CompressedFriPr
             &initial_trees_indices,
             initial_trees_proofs
         )
-        .map(|(ls, is, ps)| decompress_merkle_proofs(ls, is, &ps, height, cap_height))
-        .collect::<Vec<_>>();
+        .map(|(ls, is, ps)| try_decompress_merkle_proofs(ls, is, &ps, height, cap_height))
+        .collect::<anyhow::Result<Vec<_>>>()?;
         let steps_proofs = izip!(&steps_evals, &steps_indices, steps_proofs, heights)
-            .map(|(ls, is, ps, h)| decompress_merkle_proofs(ls, is, &ps, h, cap_height))
-            .collect::<Vec<_>>();
+            .map(|(ls, is, ps, h)| try_decompress_merkle_proofs(ls, is, &ps, h, cap_height))
+            .collect::<anyhow::Result<Vec<_>>>()?;
 
         let mut decompressed_query_proofs = Vec::with_capacity(num_reductions);
         for i in 0..indices.len() {
@@ -351,12 +351,12 @@ impl<F: RichField + Extendable<D>, H: Hasher<F>, const D: usize> CompressedFriPr
             })
         }
 
-        FriProof {
+        Ok(FriProof {
             commit_phase_merkle_caps,
             query_round_proofs: decompressed_query_proofs,
             final_poly,
             pow_witness,
-        }
+        })
     }
 }
 
